@@ -175,6 +175,19 @@ Writable(fmt, vn) == WritableTab[fmt][vn]
 \* sections whose content both versions can represent (conservative: everything except the embedded
 \* skin profiles, which moved to .skin files in WotLK)
 Representable(va, vb) == Writable("m2", VerNum(va)) \cap Writable("m2", VerNum(vb))
+\* M2Converter::convert is the multi-step public path (what the CLI uses): adjacent versions convert directly, all others
+\* through every intermediate version in order -- upgrade (from, to] ascending, downgrade [to, from) descending.  The
+\* composition of the single steps must end in the requested version, for every pair.
+VerIdx(ver) == CHOOSE j \in 1..Len(Versions) : Versions[j] = ver
+ConvPath(va, vb) == LET ia == VerIdx(va)  ib == VerIdx(vb) IN
+                    IF ib >= ia THEN [j \in 1..(ib - ia) |-> Versions[ia + j]]
+                                ELSE [j \in 1..(ia - ib) |-> Versions[ia - j]]
+FinalVersion(va, vb) == IF ConvPath(va, vb) = << >> THEN va ELSE ConvPath(va, vb)[Len(ConvPath(va, vb))]
+PathsReachTarget == \A va, vb \in VerSet :
+                      /\ FinalVersion(va, vb) = vb
+                      /\ \A j \in 1..Len(ConvPath(va, vb)) :          \* every step is a single-step (adjacent) conversion
+                            LET prev == IF j = 1 THEN va ELSE ConvPath(va, vb)[j - 1]
+                            IN  VerIdx(ConvPath(va, vb)[j]) - VerIdx(prev) \in {-1, 1}
 \* sections with version-gated fields: compared across versions on their common fields only
 VersionGated == {"header", "animations", "bones", "cameras", "ribbon_emitters", "particle_emitters", "bone_keyframes"}
 
